@@ -387,6 +387,12 @@ func c08Edges(r *Run) {
 		if strings.HasPrefix(row.atom.OrdA, "ROOT.") {
 			row.atom.OrdA = decodedRoot(r, fn) + strings.TrimPrefix(row.atom.OrdA, "ROOT")
 		}
+		if neverFails(r, row.atom.Pat, fn) {
+			// the cause is the error of a module function all of whose returns hand back the constant nil
+			// there (the confirmed marshalGetEntriesResponse is one): it cannot arise, nothing to demand
+			r.Pass(short(row.fn)+":"+row.name+":cannot-arise", r.FnPos(fn), "the callee returns a nil error on every path")
+			continue
+		}
 		sp := EdgeSpec{Name: row.name, Atom: row.atom, Bad: row.bad, Want: wantStatus(row.status)}
 		// a failed request never records an SCT and parse failures never reach the backend
 		sp.Unreach = asInstrs(CallsTo(fn, "iface(trillian/ctfe.RequestLog).IssueSCT"))
@@ -712,4 +718,49 @@ func decodedRoot(r *Run, fn *ssa.Function) string {
 		return selBase(r.D.D(CallArgs(cs[0])[0]))
 	}
 	return "new:types.LogRootV1#0"
+}
+
+// neverFails: pat is "nil?<callee>(*)#k" (or without #k) naming a module function called by fn whose k-th
+// result is the constant nil at every return.
+func neverFails(r *Run, pat string, fn *ssa.Function) bool {
+	pat, ok := strings.CutPrefix(pat, "nil?")
+	if !ok {
+		return false
+	}
+	i := strings.LastIndex(pat, "(*)")
+	if i < 0 {
+		return false
+	}
+	name, rest := pat[:i], pat[i+3:]
+	k := 0
+	if rest != "" {
+		if len(rest) != 2 || rest[0] != '#' || rest[1] < '0' || rest[1] > '9' {
+			return false
+		}
+		k = int(rest[1] - '0')
+	}
+	calls := CallsTo(fn, name)
+	if len(calls) == 0 {
+		return false
+	}
+	for _, c := range calls {
+		callee := c.Common().StaticCallee()
+		if callee == nil || len(callee.Blocks) == 0 || !r.P.AllFuncs[callee] || fnPkg(callee) == nil || !strings.HasPrefix(fnPkg(callee).Path(), ModPath) {
+			return false
+		}
+		rets := Returns(callee)
+		if len(rets) == 0 {
+			return false
+		}
+		for _, ret := range rets {
+			if k >= len(ret.Results) {
+				return false
+			}
+			cst, isConst := ret.Results[k].(*ssa.Const)
+			if !isConst || !cst.IsNil() {
+				return false
+			}
+		}
+	}
+	return true
 }
